@@ -20,7 +20,11 @@ def run(pid, tier, seed, replay):
                 f.write(json.dumps(c) + "\n")
         env["VERIF_REPLAY_CASES"] = cf
     lines = ctx.go_driver("server/protocol", ["protocol/c14_test.go"], "^TestVerifC14$", env=env)
-    lines += ctx.go_driver("server", ["server/c14_test.go"], "^TestVerifC14Nats$", env=env)
+    lines += ctx.go_driver("server", ["server/srv_test.go", "server/c14_test.go", "server/c14h_test.go"], "^TestVerifC14(Nats|Handlers)$", env=env)
+    hcalls = 0
+    for l in lines:
+        if l.get("k") == "stat":
+            hcalls += sum(v for k, v in l["dist"].items() if k.startswith("handle") and "/" not in k)
     envc = [l for l in lines if l.get("k") == "env"]
     repl = [l for l in lines if l.get("k") == "repl"]
     nats = [l for l in lines if l.get("k") == "nats"]
@@ -32,8 +36,11 @@ def run(pid, tier, seed, replay):
                 dist[k] = dist.get(k, 0) + v
     for l in lines:
         if l.get("k") == "violation":
-            case = {"k": l.get("case_kind", "env"), "data": l["data"], "ty": l.get("ty", 0)}
-            ctx.add_violation("panic:" + l["what"].split(":")[0], l["what"] + " on " + l["data"], [case])
+            if "case" in l:
+                ctx.add_violation(l["sig"], l["what"] + " on " + l["case"].get("data", ""), [l["case"]])
+            else:
+                case = {"k": l.get("case_kind", "env"), "data": l["data"], "ty": l.get("ty", 0)}
+                ctx.add_violation("panic:" + l["what"].split(":")[0], l["what"] + " on " + l["data"], [case])
     # correspondence, sharded
     shard = 800
     nshards = 0
@@ -85,8 +92,8 @@ def run(pid, tier, seed, replay):
     samples = [{k: c[k] for k in c if k != "k"} for c in (envc[:1] + envc[-2:] + repl[:1] + nats[:1])]
     return ctx.finish(
         coverage={"input_distribution": dist, "envelope_cases": len(envc), "replication_response_cases": len(repl),
-                  "publish_path_cases": len(nats), "crc_samples": len(crc), "case_shards": nshards,
+                  "publish_path_cases": len(nats), "crc_samples": len(crc), "case_shards": nshards, "nats_handler_calls": hcalls,
                   "exhaustive_part": "header-length byte 0..255 x flag bit x total length 8..14 (3584 strings)"},
         samples=samples,
         rule="byte strings from a structured generator (valid envelopes of all 15 types, CRC ok/bad, arbitrary header-length/flag/type/version bytes, truncations) plus a random stream; non-trivial = starts with the envelope magic number (gets past the first two checks); distinct by (bytes, type)",
-        evaluations=len(allc), distinct_nontrivial=len(nontriv), traces=len(allc))
+        evaluations=len(allc) + hcalls, distinct_nontrivial=len(nontriv), traces=len(allc))
